@@ -973,6 +973,8 @@ def c03_task(task):
         if rng.random() < 0.15:       # signature extensions in force (per call or VM-wide): they run once per CHECK_MULTISIG, not once per attempt
             cfg = tsh.Cfg(max_items=cfg.max_items, max_item_size=cfg.max_item_size, sigext=rng.choice([(1,), (1, 2)]), vmwide=rng.random() < 0.4)
         sf = {'sigfield1': bytes(rng.getrandbits(8) for _ in range(rng.choice([4, 4, 4, 40, 120]))), 'sigfield2': b'zz'}
+        if cfg.max_item_size >= 4096 and rng.random() < 0.6:
+            sf['sigfield2'] = bytes(rng.getrandbits(8) for _ in range(rng.choice([1100, 1500, 3000])))      # a message above the DEFAULT item limit
         nk = rng.randint(1, 4)
         ks = rng.sample(range(len(SEEDS)), nk)
         if rng.random() < 0.1 and nk >= 2:
